@@ -50,6 +50,20 @@ def one_case(ctx, g, rng, length):
     if ein > esz:
         problems.append("constructor accepted initialized_size %d > size %d" % (ein, esz))
     impl.append([0])
+    shared = None
+    if rng.random() < 0.3 and len(bi.contents) <= 4096:
+        # a content edit on ANOTHER interval: its `contents` attribute is assigned the very buffer of this one (it fits: the size is
+        # the buffer's length).  Size and initialized_size assignments on this interval are about THIS interval: the other one's
+        # stored bytes never exceed its size because of them
+        shared = g.ByteInterval(size=len(bi.contents), section=g.Section(name="u", module=next(iter(ir.modules))))
+        shared.contents = bi.contents
+        ctx.count("interval_sharing_its_buffer_by_assignment")
+    if rng.random() < 0.5:
+        # the interval is not alone in its section: neighbours without an address, at its own address, below and above it, empty and
+        # not -- "the interval can always be saved and loaded back" whatever shares the section with it
+        for _ in range(rng.choice([1, 2, 3])):
+            g.ByteInterval(address=rng.choice([None, None, addr, 0, 16, (1 << 64) - 1]), size=rng.choice([2, 4]), contents=rng.choice([b"", b"ab"]), section=sec)
+        ctx.count("interval_with_neighbours")
     blocks = []
     for _ in range(rng.choice([1, 2, 3])):
         ecap = min(esz, 64)          # most block extents stay near the stored bytes; some blocks reach to 2^63 and 2^64-1 (views are slices of the stored bytes)
@@ -81,6 +95,9 @@ def one_case(ctx, g, rng, length):
         if twin is not None and (bytes(twin.contents) != contents or twin.size != n or twin.initialized_size != n):
             problems.append("a second interval constructed from the same caller buffer changed with the first: size %d, bytes %r (were %d, %r)"
                             % (twin.size, bytes(twin.contents), n, contents))
+        if shared is not None and len(shared.contents) > shared.size:
+            problems.append("a second interval whose contents attribute was assigned this interval's buffer (%d bytes, its size) now stores %d bytes in size %d: "
+                            "an assignment to THIS interval grew it" % (shared.size, len(shared.contents), shared.size))
         c = bytes(bi.contents)
         if len(c) <= bi.size:
             beyond = False          # back inside the invariant (e.g. a later size assignment truncated)
@@ -273,7 +290,12 @@ def loader_rejection(ctx, g, rng, n):
         others = [g.ByteInterval(size=4, contents=b"ab", section=sec) for _ in range(rng.choice([0, 1, 2]))]
         bi = g.ByteInterval(address=rng.choice([None, 0, 4096]), size=size, contents=bytes(rng.randrange(256) for _ in range(nb)), section=sec)
         g.CodeBlock(size=1, offset=0, byte_interval=bi)
-        bs = protocheck.save_bytes(ir)
+        try:
+            bs = protocheck.save_bytes(ir)
+        except Exception as e:  # noqa: BLE001
+            ctx.add("oracle", "bytes:cannot-save", "an IR whose section holds %d intervals (addresses %s), each storing no more bytes than its size, cannot be saved: %s"
+                    % (len(others) + 1, [x.address for x in others + [bi]], exc_name(g, e)), {"addresses": [x.address for x in others + [bi]]})
+            return
         p = protocheck.parse_body(bs)
         pbi = [x for x in p.modules[0].sections[0].byte_intervals if bytes(x.uuid) == bi.uuid.bytes][0]
         how = rng.choice(["size-lowered", "size-zero", "bytes-appended"])
